@@ -1,26 +1,664 @@
 //! Properties that are not (only) walker based: C04 constructed positions, C15/C16 text,
 //! C17 feature enumeration, C18 concurrency, C20 long games.
-use crate::core::{Fail, Stats};
-use crate::registry;
-use crate::runner::{Outcome, RunCfg};
-use serde_json::Value;
 
-pub fn handles(_id: &str) -> bool {
-    false
+use crate::core::*;
+use crate::drive::View;
+use crate::ensure;
+use crate::gen::{self, PosMode, RawPos};
+use crate::model::{self as m, Board, Model};
+use crate::props::{c04_check, piece_board_of};
+use crate::registry;
+use crate::runner::*;
+use crate::textprops::*;
+use arimaa_engine_step::{GameState, List, Phase, PieceBoard, PlayPhase, PushPullState, Square, Zobrist};
+use proptest::prelude::*;
+use proptest::test_runner::{TestCaseError, TestError, TestRunner};
+use serde_json::{json, Value};
+use std::cell::RefCell;
+use std::process::Command;
+
+pub fn handles(id: &str) -> bool {
+    matches!(id, "C04" | "C15" | "C16" | "C17" | "C18" | "C20")
 }
 
 pub fn rule(id: &str) -> String {
-    registry::rule(id).to_string()
+    match id {
+        "C16" => "evaluation = one value round trip (all 263 actions, 64 squares, 6 pieces, 4 directions: exhaustive) or one string fed to Action/Square/Piece/Direction::from_str under catch_unwind (all 475,255 strings of length <= 4 over a 26-symbol alphabet containing every boundary of the notation and 2/3/4-byte characters: exhaustive; longer and arbitrary Unicode strings and random u64 bitboards: sampled); oracle: no panic, Ok(v) => print(v) == s (upper-case piece letters allowed), reference grammar => Ok; non-trivial = string of length 1-3 whose first character is a letter, '`' or non-ASCII (it gets past the length test into slicing/arithmetic), or a value round trip".into(),
+        "C17" => "evaluation = one pair of play-phase states built with the public constructors that differ in exactly one hashed feature (content of one square among 13 contents, side, step, push/pull status among 641, or one piece relocated), whose transposition hashes must differ; the feature space is enumerated completely for every generated context (board, side, step, status); non-trivial = every such pair (all are distinct by construction; counted per distinct context x feature kind x feature value)".into(),
+        "C18" => "evaluation = one generated concurrent program (T threads sharing Arc<GameState>, each expanding / cloning / dropping / querying, with states handed across threads) whose per-thread transcripts are compared with the sequential run of the same program; plus the compile-time probe of Send + Sync for the public types; non-trivial = program with >= 2 threads expanding the same state and >= 1 state handed across threads".into(),
+        "C20" => "evaluation = one long capture-free game played through offered actions in a child process on a default-size thread, followed by clone / queries / one more action / drop of the clone / drop of the original, each acknowledged by a progress line; oracle = child exits 0 with all progress lines (a stack overflow is a fatal signal); non-trivial = history length >= 10000 as reported by the child; distinct by (seed, N, policy, profile)".into(),
+        _ => registry::rule(id).to_string(),
+    }
 }
 
-pub fn assumptions(_id: &str) -> Vec<String> {
-    vec![]
+pub fn assumptions(id: &str) -> Vec<String> {
+    let mut v = vec![
+        "reachable = reached from GameState::initial() or from a parsed legal position through offered actions only, never continued after a reported result".to_string(),
+        "harness build = opt-level 3 with overflow-checks and debug-assertions on, applied to the engine crate as well".to_string(),
+    ];
+    match id {
+        "C05" | "C06" | "C07" => v.push("no 64-bit Zobrist collision between distinct positions inside one game's history (probability < 1e-8 per run)".into()),
+        "C01" | "C12" => v.push("reference model of the rules (harness/src/model.rs) is itself correct; cross-checked by C11 which uses no model".into()),
+        "C08" => v.push("'from scratch' means the crate's own Zobrist::from_piece_board, not a copy of its tables".into()),
+        "C18" => v.push("the OS scheduler is not controlled: interleavings are sampled, data races are looked for with ThreadSanitizer in the thorough tier".into()),
+        "C20" => v.push("quick tier uses the dev profile (what cargo test users run); thorough adds opt-level 3".into()),
+        _ => {}
+    }
+    v
 }
 
-pub fn run(_cfg: &RunCfg, _stats: &mut Stats, _exhaustive: &mut bool, _extra: &mut Value) -> Outcome {
+fn text_replay(id: &str, kind: &str, fail: &Fail, text: &str, seed: u64, shard: usize) -> Value {
+    json!({"property": id, "kind": kind, "clause": fail.clause, "detail": fail.detail, "text": text, "seed": seed, "shard": shard})
+}
+
+/// Generic sharded proptest loop for non-game cases.
+fn sharded<V, S>(
+    cfg: &RunCfg,
+    leg: usize,
+    cases: u32,
+    strategy: impl Fn() -> S + Sync,
+    test: impl Fn(&V, &mut Stats) -> Check + Sync,
+    to_replay: impl Fn(&V, &Fail, usize) -> Value + Sync,
+    sample: impl Fn(&V) -> Value + Sync,
+    stats: &mut Stats,
+) -> Outcome
+where
+    V: std::fmt::Debug + Clone,
+    S: Strategy<Value = V>,
+{
+    let results: Vec<(Stats, Option<Result<Violation, String>>)> = std::thread::scope(|sc| {
+        let mut hs = vec![];
+        for shard in 0..SHARDS {
+            let strategy = &strategy;
+            let test = &test;
+            let to_replay = &to_replay;
+            let sample = &sample;
+            let id = cfg.id.clone();
+            let seed = cfg.seed;
+            hs.push(sc.spawn(move || {
+                install_hook();
+                let mut runner = TestRunner::new(proptest_config(cases, shard_seed(seed, &id, leg, shard)));
+                let st = RefCell::new(Stats::default());
+                let res = runner.run(&strategy(), |v: V| {
+                    let mut s = st.borrow_mut();
+                    match test(&v, &mut s) {
+                        Ok(()) => {
+                            if shard == 0 {
+                                s.sample(4, || sample(&v));
+                            }
+                            Ok(())
+                        }
+                        Err(f) => {
+                            s.frozen = true;
+                            Err(TestCaseError::fail(f.clause))
+                        }
+                    }
+                });
+                let mut stats = st.into_inner();
+                stats.frozen = false;
+                let out = match res {
+                    Ok(()) => None,
+                    Err(TestError::Fail(_, minimal)) => {
+                        let mut tmp = Stats::default();
+                        match test(&minimal, &mut tmp) {
+                            Err(f) => Some(Ok(Violation { replay: to_replay(&minimal, &f, shard), fail: f })),
+                            Ok(()) => Some(Err("shrunk case did not fail when re-run".to_string())),
+                        }
+                    }
+                    Err(TestError::Abort(r)) => Some(Err(format!("proptest aborted: {}", r))),
+                };
+                (stats, out)
+            }));
+        }
+        hs.into_iter().map(|h| h.join().expect("shard")).collect()
+    });
+    let mut first = None;
+    for (s, o) in results {
+        stats.merge(s);
+        if first.is_none() {
+            first = o;
+        }
+    }
+    match first {
+        None => Outcome::Pass,
+        Some(Ok(v)) => Outcome::Violation(v),
+        Some(Err(e)) => Outcome::Inconclusive(e),
+    }
+}
+
+macro_rules! try_outcome {
+    ($e:expr) => {
+        match $e {
+            Outcome::Pass => {}
+            other => return other,
+        }
+    };
+}
+
+pub fn run(cfg: &RunCfg, stats: &mut Stats, exhaustive: &mut bool, extra: &mut Value) -> Outcome {
+    match cfg.id.as_str() {
+        "C04" => run_c04(cfg, stats),
+        "C15" => run_c15(cfg, stats),
+        "C16" => run_c16(cfg, stats, exhaustive, extra),
+        "C17" => run_c17(cfg, stats, exhaustive, extra),
+        "C18" => crate::conc::run_c18(cfg, stats, extra),
+        "C20" => crate::longgame::run_c20(cfg, stats, extra),
+        _ => Outcome::Pass,
+    }
+}
+
+pub fn replay(id: &str, v: &Value) -> Result<Option<Fail>, String> {
+    let mut st = Stats::default();
+    match (id, v["kind"].as_str().unwrap_or("")) {
+        ("C15", "text") => Ok(c15_text_check(v["text"].as_str().ok_or("text")?, &mut st).err()),
+        ("C15", "valid_diagram") => match crate::drive::start_from_json(&v["start"])? {
+            gen::Start::Pos(p) => Ok(c15_valid_diagram(&p, &mut st).err()),
+            _ => Err("bad start".into()),
+        },
+        ("C16", "string") => Ok(c16_string(v["text"].as_str().ok_or("text")?, &mut st).err()),
+        ("C16", "values") => Ok(c16_values(&mut st).err()),
+        ("C16", "bitboard") => Ok(c16_bitboard(v["bits"].as_u64().ok_or("bits")?, &mut st).err()),
+        ("C04", "position") => {
+            let start = crate::drive::start_from_json(&v["start"])?;
+            match start {
+                gen::Start::Pos(p) => Ok(c04_position(&p, &mut st).err()),
+                _ => Err("bad start".into()),
+            }
+        }
+        ("C17", "context") => {
+            let start = crate::drive::start_from_json(&v["start"])?;
+            match start {
+                gen::Start::Pos(p) => {
+                    let ctx = C17Ctx { board: p.board, gold: p.gold_to_move, step: v["step"].as_u64().unwrap_or(0) as usize, status_idx: v["status_idx"].as_u64().unwrap_or(0) as usize };
+                    Ok(c17_context(&ctx, &mut st).err())
+                }
+                _ => Err("bad start".into()),
+            }
+        }
+        ("C18", _) => crate::conc::replay_c18(v),
+        ("C20", _) => crate::longgame::replay_c20(v),
+        _ => Err(format!("unknown replay kind for {}", id)),
+    }
+}
+
+// =====================================================================================
+// C04: constructed positions
+// =====================================================================================
+
+#[derive(Clone, Debug)]
+pub struct C04Raw {
+    pub raw: RawPos,
+    pub target: u8,
+    pub goal_file_last: u8,
+    pub goal_file_mover: u8,
+    pub imm: Vec<(u8, u8, u8)>,
+}
+
+/// Steers a generated position towards a 5-bit target (last mover on goal, mover on goal, mover
+/// without rabbits, last mover without rabbits, mover immobilised). The target only steers; the
+/// oracle re-derives all five facts from the resulting board.
+pub fn c04_build(c: &C04Raw) -> gen::PosSpec {
+    let mut p = gen::build_pos(&c.raw, PosMode::Any);
+    let mover = p.gold_to_move;
+    let last = !mover;
+    let t = c.target;
+    let mut b = p.board;
+    if t & 16 != 0 {
+        // immobilised mover: rebuild the board from frozen / blocked mover pieces only
+        b = gen::immobilised_board(mover, &c.imm).0;
+    }
+    let set_rabbit = |b: &mut Board, gold: bool, file: u8| {
+        let row = if gold { 0 } else { 7 };
+        let sq = row * 8 + (file % 8);
+        if b.count(m::mk(gold, m::R)) >= 8 && b.at(sq) != m::mk(gold, m::R) {
+            // keep within the complement: take a rabbit from elsewhere
+            if let Some(i) = (0..64u8).find(|&i| b.at(i) == m::mk(gold, m::R)) {
+                b.0[i as usize] = m::EMPTY;
+            }
+        }
+        b.0[sq as usize] = m::mk(gold, m::R);
+    };
+    let clear_goal = |b: &mut Board, gold: bool| {
+        let row = if gold { 0 } else { 7 };
+        for f in 0..8u8 {
+            if b.at(row * 8 + f) == m::mk(gold, m::R) {
+                b.0[(row * 8 + f) as usize] = m::EMPTY;
+            }
+        }
+    };
+    let remove_rabbits = |b: &mut Board, gold: bool| {
+        for i in 0..64usize {
+            if b.0[i] == m::mk(gold, m::R) {
+                b.0[i] = m::EMPTY;
+            }
+        }
+    };
+    if t & 1 != 0 {
+        set_rabbit(&mut b, last, c.goal_file_last);
+    } else {
+        clear_goal(&mut b, last);
+        if t & 8 != 0 {
+            remove_rabbits(&mut b, last);
+        }
+    }
+    if t & 2 != 0 {
+        set_rabbit(&mut b, mover, c.goal_file_mover);
+    } else {
+        clear_goal(&mut b, mover);
+        if t & 4 != 0 {
+            remove_rabbits(&mut b, mover);
+        }
+    }
+    // legalise traps again
+    for &tr in m::TRAPS.iter() {
+        let cc = b.at(tr);
+        if cc != m::EMPTY && !b.has_friend_adjacent(tr, m::is_gold(cc)) {
+            b.0[tr as usize] = m::EMPTY;
+        }
+    }
+    p.board = b;
+    p
+}
+
+pub fn c04_position(p: &gen::PosSpec, st: &mut Stats) -> Check {
+    let eng = engine_from_position(&p.board, p.gold_to_move, p.move_number).map_err(|e| Fail::new("harness:start", e))?;
+    let mo = Model::from_position(p.board, p.gold_to_move, p.move_number);
+    let v = View::new(&eng, &mo, false);
+    c04_check(&v, st)
+}
+
+fn run_c04(cfg: &RunCfg, stats: &mut Stats) -> Outcome {
+    let cases = if cfg.thorough { 1_000_000 } else { 40_000 };
+    let strat = || {
+        (gen::raw_pos(), 0u8..32, 0u8..8, 0u8..8, prop::collection::vec((any::<u8>(), any::<u8>(), any::<u8>()), 1..5))
+            .prop_map(|(raw, target, a, b, imm)| C04Raw { raw, target, goal_file_last: a, goal_file_mover: b, imm })
+    };
+    let id = cfg.id.clone();
+    let seed = cfg.seed;
+    let mut s = Stats::default();
+    let out = sharded(
+        cfg,
+        10,
+        cases,
+        strat,
+        |c: &C04Raw, st: &mut Stats| {
+            let p = c04_build(c);
+            st.bump(&format!("target_{:05b}", c.target));
+            match c04_position(&p, st) {
+                Err(f) if f.clause.starts_with("harness:") => {
+                    st.bump("inconclusive_start");
+                    Ok(())
+                }
+                r => r,
+            }
+        },
+        |c, f, shard| {
+            let p = c04_build(c);
+            json!({"property": id, "kind": "position", "clause": f.clause, "detail": f.detail, "start": crate::drive::start_json(&gen::Start::Pos(p)), "seed": seed, "shard": shard})
+        },
+        |c| {
+            let p = c04_build(c);
+            json!({"constructed_position": board_text(&p.board), "gold_to_move": p.gold_to_move, "target_bits": format!("{:05b}", c.target)})
+        },
+        &mut s,
+    );
+    let mut pref = Stats::default();
+    pref.evaluations = s.evaluations;
+    pref.nontrivial = s.nontrivial;
+    pref.samples = s.samples;
+    for (k, v) in s.counters {
+        pref.counters.insert(format!("constructed/{}", k), v);
+    }
+    stats.merge(pref);
+    out
+}
+
+// =====================================================================================
+// C15 text half
+// =====================================================================================
+
+pub fn c15_valid_diagram(p: &gen::PosSpec, st: &mut Stats) -> Check {
+            st.eval();
+            st.bump("text/valid_diagrams");
+            let text = p.board.diagram(p.move_number, p.gold_to_move);
+            let g = guard(|| text.parse::<GameState>()).map_err(|e| Fail::new("C15:parse_panic", format!("{} on\n{}", e, text)))?;
+            let g = g.map_err(|e| Fail::new("C15:valid_diagram_rejected", format!("{} for\n{}", e, text)))?;
+            let b = read_board(g.piece_board()).map_err(|e| Fail::new("C15:board", e))?;
+            ensure!(b == p.board && g.is_p1_turn_to_move() == p.gold_to_move && g.move_number() == p.move_number, "C15:valid_diagram_misread", "the diagram of a legal position is read back as a different position (board [{}], gold to move {}, move number {}):\n{}", board_text(&b), g.is_p1_turn_to_move(), g.move_number(), text);
+            let printed = guard(|| g.to_string()).map_err(|e| Fail::new("C15:print_panic", e))?;
+            ensure!(printed == text, "C15:reprint", "printed form differs from the diagram it was parsed from:\n{}\nvs\n{}", printed, text);
+            if p.move_number >= 10 || !p.gold_to_move {
+                st.nontrivial(fp_combine(p.board.fingerprint(), p.move_number as u64 * 2 + p.gold_to_move as u64));
+            }
+            Ok(())
+        }
+
+fn run_c15(cfg: &RunCfg, stats: &mut Stats) -> Outcome {
+    // golden inputs first (the defects found in the design phase)
+    for t in golden_c15_texts() {
+        if let Err(f) = c15_text_check(&t, stats) {
+            return Outcome::Violation(Violation { replay: text_replay("C15", "text", &f, &t, cfg.seed, 0), fail: f });
+        }
+        stats.bump("text/golden_inputs");
+    }
+    let cases = if cfg.thorough { 1_500_000 } else { 60_000 };
+    let seed = cfg.seed;
+    let mut s = Stats::default();
+    let out = sharded(
+        cfg,
+        10,
+        cases,
+        c15_text,
+        |c: &TextCase, st: &mut Stats| c15_text_check(&c.text, st),
+        |c, f, shard| text_replay("C15", "text", f, &c.text, seed, shard),
+        |c| json!({"text": c.text}),
+        &mut s,
+    );
+    let mut pref = Stats::default();
+    pref.evaluations = s.evaluations;
+    pref.nontrivial = s.nontrivial;
+    pref.samples = s.samples;
+    for (k, v) in s.counters {
+        pref.counters.insert(format!("text/{}", k), v);
+    }
+    stats.merge(pref);
+    try_outcome!(out);
+    // well-formed diagrams of legal positions (the printed form of a reachable state with that board,
+    // side and move number) must be read back as exactly that position
+    sharded(
+        cfg,
+        11,
+        cases / 4,
+        || gen::pos(PosMode::Any),
+        |p: &gen::PosSpec, st: &mut Stats| c15_valid_diagram(p, st),
+        |p, f, shard| json!({"property": "C15", "kind": "valid_diagram", "clause": f.clause, "detail": f.detail, "start": crate::drive::start_json(&gen::Start::Pos(p.clone())), "seed": seed, "shard": shard}),
+        |p| json!({"valid_diagram": p.board.diagram(p.move_number, p.gold_to_move)}),
+        stats,
+    )
+}
+
+// =====================================================================================
+// C16
+// =====================================================================================
+
+fn run_c16(cfg: &RunCfg, stats: &mut Stats, exhaustive: &mut bool, extra: &mut Value) -> Outcome {
+    if let Err(f) = c16_values(stats) {
+        return Outcome::Violation(Violation { replay: json!({"property": "C16", "kind": "values", "clause": f.clause, "detail": f.detail}), fail: f });
+    }
+    for s in golden_c16_strings() {
+        if let Err(f) = c16_string(s, stats) {
+            return Outcome::Violation(Violation { replay: text_replay("C16", "string", &f, s, cfg.seed, 0), fail: f });
+        }
+    }
+    // exhaustive strings up to length 4, sharded by first symbol
+    let max_len = 4;
+    let results: Vec<(Stats, Option<(Fail, String)>)> = std::thread::scope(|sc| {
+        (0..SHARDS)
+            .map(|shard| {
+                sc.spawn(move || {
+                    install_hook();
+                    let mut st = Stats::default();
+                    let r = c16_exhaustive_strings(shard, SHARDS, max_len, &mut st).err();
+                    (st, r)
+                })
+            })
+            .collect::<Vec<_>>()
+            .into_iter()
+            .map(|h| h.join().expect("shard"))
+            .collect()
+    });
+    let mut enumerated = 0u64;
+    for (s, r) in results {
+        enumerated += s.evaluations;
+        stats.merge(s);
+        if let Some((f, text)) = r {
+            // the enumeration order is by length-first prefix, so this is already a shortest prefix in
+            // its subtree; shrink further by trying all proper sub-sequences
+            let mut best = text.clone();
+            let mut bf = f.clone();
+            let cs: Vec<char> = text.chars().collect();
+            for mask in 1..(1u32 << cs.len()) {
+                let sub: String = cs.iter().enumerate().filter(|(i, _)| mask & (1 << i) != 0).map(|(_, c)| *c).collect();
+                if sub.chars().count() < best.chars().count() {
+                    let mut tmp = Stats::default();
+                    if let Err(f2) = c16_string(&sub, &mut tmp) {
+                        if f2.clause == f.clause {
+                            best = sub;
+                            bf = f2;
+                        }
+                    }
+                }
+            }
+            return Outcome::Violation(Violation { replay: text_replay("C16", "string", &bf, &best, cfg.seed, 0), fail: bf });
+        }
+    }
+    stats.add("strings_enumerated_exhaustively", enumerated);
+    stats.sample(12, || json!({"exhaustive": "all strings of length <= 4 over the alphabet", "alphabet": ALPHABET.iter().map(|c| c.to_string()).collect::<Vec<_>>()}));
+    *exhaustive = true;
+    *extra = json!({"exhaustive_part": "263 actions, 64 squares, 6 pieces, 4 directions, 475255 strings (length <= 4 over 26 symbols)", "sampled_part": "longer strings, arbitrary Unicode, random u64 bitboards"});
+    // sampled: longer strings
+    let cases = if cfg.thorough { 3_000_000 } else { 100_000 };
+    let seed = cfg.seed;
+    try_outcome!(sharded(
+        cfg,
+        10,
+        cases,
+        c16_long_string,
+        |s: &String, st: &mut Stats| {
+            st.bump("sampled_strings");
+            c16_string(s, st)
+        },
+        |s, f, shard| text_replay("C16", "string", f, s, seed, shard),
+        |s| json!(s),
+        stats,
+    ));
+    // sampled: bitboards
+    try_outcome!(sharded(
+        cfg,
+        11,
+        cases / 4,
+        || prop_oneof![2 => any::<u64>(), 1 => (any::<u64>(), any::<u64>()).prop_map(|(a, b)| a & b), 1 => (0u32..64, 0u32..64).prop_map(|(a, b)| (1u64 << a) | (1u64 << b))],
+        |b: &u64, st: &mut Stats| {
+            st.bump("sampled_bitboards");
+            c16_bitboard(*b, st)
+        },
+        |b, f, shard| json!({"property": "C16", "kind": "bitboard", "clause": f.clause, "detail": f.detail, "bits": b, "seed": seed, "shard": shard}),
+        |b| json!(format!("{:#018x}", b)),
+        stats,
+    ));
     Outcome::Pass
 }
 
-pub fn replay(_id: &str, _v: &Value) -> Result<Option<Fail>, String> {
-    Err("unknown replay kind".into())
+// =====================================================================================
+// C17
+// =====================================================================================
+
+#[derive(Clone, Debug)]
+pub struct C17Ctx {
+    pub board: Board,
+    pub gold: bool,
+    pub step: usize,
+    pub status_idx: usize,
+}
+
+/// All 641 statuses: None, 5 x 64 pushes (pushed elephant excluded: the API panics by design),
+/// 5 x 64 pulls (pulling rabbit excluded).
+pub fn all_statuses() -> Vec<PushPullState> {
+    let mut v = vec![PushPullState::None];
+    for k in [m::R, m::C, m::D, m::H, m::M] {
+        for i in 0..64u8 {
+            v.push(PushPullState::MustCompletePush(Square::from_index(i), kind_to_piece(k)));
+        }
+    }
+    for k in [m::C, m::D, m::H, m::M, m::E] {
+        for i in 0..64u8 {
+            v.push(PushPullState::PossiblePull(Square::from_index(i), kind_to_piece(k)));
+        }
+    }
+    v
+}
+
+/// A play-phase state built with the public constructors only.
+pub fn build_state(b: &Board, gold: bool, step: usize, status: PushPullState) -> GameState {
+    let pb = piece_board_of(b);
+    let hash = Zobrist::from_piece_board(pb.piece_board(), gold, step);
+    let start_hash = Zobrist::from_piece_board(pb.piece_board(), gold, 0);
+    let history = List::new().append(start_hash);
+    let prev: Vec<PieceBoard> = (0..step).map(|_| pb.clone()).collect();
+    let phase = Phase::PlayPhase(PlayPhase::new(start_hash, history, prev, status, false));
+    GameState::new(gold, 2, phase, pb, hash)
+}
+
+fn th(b: &Board, gold: bool, step: usize, status: PushPullState) -> Result<u64, Fail> {
+    guard(|| build_state(b, gold, step, status).transposition_hash()).map_err(|p| Fail::new("C17:panic", format!("building/hashing a state panicked: {}", p)))
+}
+
+pub fn c17_context(c: &C17Ctx, st: &mut Stats) -> Check {
+    let statuses = all_statuses();
+    let status = statuses[c.status_idx % statuses.len()];
+    let ctx = format!("[{} | {} to move | step {} | {:?}]", board_text(&c.board), if c.gold { "gold" } else { "silver" }, c.step, status);
+    let ctx_fp = fp_combine(c.board.fingerprint(), (c.gold as u64) << 20 | (c.step as u64) << 16 | c.status_idx as u64);
+    let base = th(&c.board, c.gold, c.step, status)?;
+    // 1. content of one square: 13 contents pairwise different
+    let contents: Vec<u8> = std::iter::once(m::EMPTY).chain((1..=6).map(|k| m::mk(true, k))).chain((1..=6).map(|k| m::mk(false, k))).collect();
+    for sq in 0..64u8 {
+        let mut hs = vec![];
+        for &cc in contents.iter() {
+            let mut b = c.board;
+            b.0[sq as usize] = cc;
+            hs.push(th(&b, c.gold, c.step, status)?);
+        }
+        for i in 0..13 {
+            for j in (i + 1)..13 {
+                st.eval();
+                ensure!(hs[i] != hs[j], "C17:square_content", "states that differ only in the content of {} ('{}' vs '{}') have the same transposition hash {:#018x} in context {}", m::sq_name(sq), m::code_letter(contents[i]), m::code_letter(contents[j]), hs[i], ctx);
+            }
+        }
+        st.nontrivial(fp_combine(ctx_fp, 1000 + sq as u64));
+    }
+    // 2. side
+    st.eval();
+    ensure!(th(&c.board, !c.gold, c.step, status)? != base, "C17:side", "states that differ only in the side to move have the same transposition hash in context {}", ctx);
+    st.nontrivial(fp_combine(ctx_fp, 2000));
+    // 3. steps
+    let mut hs = vec![];
+    for s in 0..4 {
+        hs.push(th(&c.board, c.gold, s, status)?);
+    }
+    for i in 0..4 {
+        for j in (i + 1)..4 {
+            st.eval();
+            ensure!(hs[i] != hs[j], "C17:step", "states that differ only in the step number ({} vs {}) have the same transposition hash in context {}", i, j, ctx);
+        }
+    }
+    st.nontrivial(fp_combine(ctx_fp, 3000));
+    // 4. statuses: all 641 pairwise different
+    let mut hs: Vec<(u64, usize)> = vec![];
+    for (i, s) in statuses.iter().enumerate() {
+        hs.push((th(&c.board, c.gold, c.step, *s)?, i));
+    }
+    st.add("status_pairs", (641 * 640 / 2) as u64);
+    if !st.frozen {
+        st.evaluations += 641 * 640 / 2;
+    }
+    hs.sort();
+    for w in hs.windows(2) {
+        ensure!(w[0].0 != w[1].0, "C17:status", "states that differ only in the pending push/pull ({:?} vs {:?}) have the same transposition hash in context {}", statuses[w[0].1], statuses[w[1].1], ctx);
+    }
+    st.nontrivial(fp_combine(ctx_fp, 4000));
+    // 5. one piece standing on a different square: for each of the 12 piece codes, the piece added on
+    // each empty square gives pairwise different hashes
+    for &cc in contents.iter().skip(1) {
+        let mut hs: Vec<(u64, u8)> = vec![];
+        for sq in 0..64u8 {
+            if c.board.at(sq) == m::EMPTY {
+                let mut b = c.board;
+                b.0[sq as usize] = cc;
+                hs.push((th(&b, c.gold, c.step, status)?, sq));
+            }
+        }
+        let n = hs.len() as u64;
+        if !st.frozen {
+            st.evaluations += n * n.saturating_sub(1) / 2;
+        }
+        hs.sort();
+        for w in hs.windows(2) {
+            ensure!(w[0].0 != w[1].0, "C17:relocation", "states that differ only by a '{}' standing on {} instead of {} have the same transposition hash in context {}", m::code_letter(cc), m::sq_name(w[0].1), m::sq_name(w[1].1), ctx);
+        }
+        st.nontrivial(fp_combine(ctx_fp, 5000 + cc as u64));
+    }
+    Ok(())
+}
+
+fn run_c17(cfg: &RunCfg, stats: &mut Stats, exhaustive: &mut bool, extra: &mut Value) -> Outcome {
+    // fixed contexts: empty board and the opening array
+    let mut opening = Board::empty();
+    let back = [m::H, m::C, m::D, m::M, m::E, m::D, m::C, m::H];
+    for f in 0..8u8 {
+        opening.0[f as usize] = m::mk(false, back[f as usize]);
+        opening.0[(8 + f) as usize] = m::mk(false, m::R);
+        opening.0[(48 + f) as usize] = m::mk(true, m::R);
+        opening.0[(56 + f) as usize] = m::mk(true, back[f as usize]);
+    }
+    for (b, name) in [(Board::empty(), "empty"), (opening, "opening")] {
+        let c = C17Ctx { board: b, gold: true, step: 0, status_idx: 0 };
+        if let Err(f) = c17_context(&c, stats) {
+            return Outcome::Violation(Violation { replay: c17_replay(&c, &f, cfg.seed, 0), fail: f });
+        }
+        stats.bump(&format!("fixed_context_{}", name));
+    }
+    let cases = if cfg.thorough { 400 } else { 12 };
+    let seed = cfg.seed;
+    let out = sharded(
+        cfg,
+        10,
+        cases,
+        || (gen::raw_pos(), any::<bool>(), 0usize..4, 0usize..641).prop_map(|(raw, gold, step, status_idx)| C17Ctx { board: gen::build_pos(&raw, PosMode::Any).board, gold, step, status_idx }),
+        |c: &C17Ctx, st: &mut Stats| {
+            st.bump("generated_contexts");
+            c17_context(c, st)
+        },
+        |c, f, shard| c17_replay(c, f, seed, shard),
+        |c| json!({"context_board": board_text(&c.board), "gold_to_move": c.gold, "step": c.step, "status_idx": c.status_idx}),
+        stats,
+    );
+    *exhaustive = true;
+    *extra = json!({"exhaustive_part": "for every context: 64 squares x C(13,2) contents, side, C(4,2) steps, C(641,2) statuses, 12 piece codes x all pairs of empty squares", "sampled_part": "contexts (board, side, step, status)"});
+    out
+}
+
+fn c17_replay(c: &C17Ctx, f: &Fail, seed: u64, shard: usize) -> Value {
+    json!({"property": "C17", "kind": "context", "clause": f.clause, "detail": f.detail,
+        "start": crate::drive::start_json(&gen::Start::Pos(gen::PosSpec { board: c.board, gold_to_move: c.gold, move_number: 2 })),
+        "step": c.step, "status_idx": c.status_idx, "seed": seed, "shard": shard})
+}
+
+/// Runs a cargo sub-build with the same repo override / target dir as the harness itself.
+pub fn cargo_cmd(toolchain: Option<&str>) -> Command {
+    let mut c = Command::new("cargo");
+    if let Some(t) = toolchain {
+        c.arg(t);
+    }
+    c.env("CARGO_NET_OFFLINE", "true");
+    c
+}
+
+pub fn repo_override_args() -> Vec<String> {
+    match std::env::var("VERIF_REPO") {
+        Ok(r) if !r.is_empty() => vec!["--config".into(), format!("paths=[\"{}\"]", r)],
+        _ => vec![],
+    }
+}
+
+pub fn harness_dir() -> std::path::PathBuf {
+    verif_root_static().join("harness")
+}
+
+/// The directory of the checked-in framework (not VERIF_ROOT, which mutant runs redirect).
+pub fn verif_root_static() -> std::path::PathBuf {
+    std::env::var("VERIF_HOME").map(std::path::PathBuf::from).unwrap_or_else(|_| std::path::PathBuf::from("/verif"))
+}
+
+pub fn target_dir() -> std::path::PathBuf {
+    std::env::var("VERIF_TARGET_DIR_RESOLVED").map(std::path::PathBuf::from).unwrap_or_else(|_| harness_dir().join("target"))
 }
